@@ -403,6 +403,12 @@ func handleReuse(reuse Tensor, expectedShape Shape, safe bool) (retVal *Dense, e
 			err = errors.Errorf("a non-contiguous view (shape %v, strides %v) cannot be the reuse tensor of a product", retVal.Shape(), retVal.Strides())
 			return
 		}
+		if retVal.len() != expectedShape.TotalSize() {
+			// (checked here, before any reshaping: a refused reuse tensor keeps its shape, and a view is not left to the
+			// sanity check, which passes views of any size)
+			err = errors.Errorf("the reuse tensor holds %d elements, the result has shape %v", retVal.len(), expectedShape)
+			return
+		}
 		if err = reuseCheckShape(retVal, expectedShape); err != nil {
 			err = errors.Wrapf(err, "Unable to process reuse *Dense Tensor. Shape error.")
 			return
